@@ -110,6 +110,17 @@ fn big_checkerboard(n: usize) -> Case {
     }
 }
 
+fn comb_corner_case(n: usize) -> Case {
+    let (a, b) = comb_corner(n);
+    Case { family: "S-large", desc: format!("comb of {} thin rectangles against a box over its upper left corner (status stays a chain)", n), a, b, exact: true, exact_f32: false, integer: false, f32_ok: true, self_crossing: false, faces: vec![] }
+}
+
+/// box minus comb: the difference stops right of the subject's (the box's) bounding box with the whole comb in the status
+fn comb_corner_swapped_case(n: usize) -> Case {
+    let (a, b) = comb_corner(n);
+    Case { family: "S-large", desc: format!("box over the upper left corner of a comb of {} thin rectangles as subject, the comb as clipping", n), a: b, b: a, exact: true, exact_f32: false, integer: false, f32_ok: true, self_crossing: false, faces: vec![] }
+}
+
 fn comb_case(n: usize) -> Case {
     let (a, b) = comb(n);
     Case { family: "S-large", desc: format!("comb of {} thin rectangles against a small box", n), a, b, exact: true, exact_f32: false, integer: false, f32_ok: true, self_crossing: false, faces: vec![] }
@@ -122,7 +133,7 @@ pub fn c03_check(case: &Case, op: Op, f32_run: bool) -> Result<(), Fail> {
 pub fn c03_worker(ctx: &mut Ctx) {
     let slow = ctx.is_slow_variant();
     let miri = ctx.variant == "miri";
-    let total = if miri { ctx.count(16, 160) } else if slow { ctx.count(4_000, 200_000) } else { ctx.count(150_000, 6_000_000) };
+    let total = if miri { ctx.count(8, 160) } else if slow { ctx.count(4_000, 200_000) } else { ctx.count(150_000, 6_000_000) };
     let mut max_events = 0u64;
     for i in ctx.my_indices(total) {
         if ctx.out_of_time() {
@@ -165,31 +176,31 @@ pub fn c03_worker(ctx: &mut Ctx) {
     crate::props::run_known(ctx, &mut |case, op, f32_run| c03_check(case, op, f32_run));
     // large inputs: only in the native variants, on one shard each
     if !slow {
-        let sizes: Vec<(usize, usize)> = match ctx.tier {
-            Tier::Quick => vec![(25_000, 60)],
-            Tier::Thorough => vec![(250_000, 150), (60_000, 100)],
+        // (case, operations): the big combs only with the early-stopping operations (their sweep line still holds
+        // every segment when the sweep stops), the smaller inputs with all four
+        let early = vec![Op::Intersection, Op::Difference];
+        let mut large: Vec<(Case, Vec<Op>)> = match ctx.tier {
+            Tier::Quick => vec![(comb_corner_case(150_000), vec![Op::Intersection]), (comb_corner_swapped_case(150_000), early.clone()), (comb_case(25_000), OPS.to_vec()), (big_checkerboard(60), OPS.to_vec())],
+            Tier::Thorough => vec![(comb_case(250_000), OPS.to_vec()), (comb_corner_case(250_000), vec![Op::Intersection]), (comb_corner_swapped_case(250_000), early.clone()), (comb_corner_case(150_000), vec![Op::Intersection]), (comb_case(60_000), OPS.to_vec()), (big_checkerboard(150), OPS.to_vec()), (big_checkerboard(100), OPS.to_vec())],
         };
-        for (k, (comb_n, board_n)) in sizes.into_iter().enumerate() {
-            for (j, case) in [comb_case(comb_n), big_checkerboard(board_n)].into_iter().enumerate() {
-                let slot = (2 * k + j) as u64;
-                if ctx.only_index.is_none() && slot % ctx.nshards != ctx.shard {
-                    continue;
-                }
-                ctx.cnt("large_inputs", 1);
-                ctx.max("max_input_edges", case.n_edges() as u64);
-                for op in OPS {
-                    for f32_run in [false, true] {
-                        if f32_run && case.family == "S-large" && case.desc.starts_with("comb") && comb_n > 100_000 {
-                            // y coordinates up to 2.5e5 with 0.5 steps are still exact in f32
-                        }
-                        ctx.begin("large", slot, &format!("{} {} {}", case.desc.replace(' ', "_"), op.name(), float_name(f32_run)));
-                        ctx.evaluations += 1;
-                        if let Err((sym, detail)) = c03_check(&case, op, f32_run) {
-                            // do not store 10^6-edge operands in the replay: the construction is deterministic
-                            ctx.violation(&sym, &format!("{} ({}) on {}: {}", op.name(), float_name(f32_run), case.desc, detail), json!({"kind": "generated", "property": "C03", "label": "large", "index": slot, "seed": ctx.seed, "tier": ctx.tier.name(), "variant": ctx.variant}));
-                        }
-                        ctx.end();
+        for (slot, (case, ops)) in large.drain(..).enumerate() {
+            let slot = slot as u64;
+            if ctx.only_index.map(|o| o != slot).unwrap_or(slot % ctx.nshards != ctx.shard) {
+                continue;
+            }
+            ctx.cnt("large_inputs", 1);
+            ctx.max("max_input_edges", case.n_edges() as u64);
+            for op in ops {
+                for f32_run in [false, true] {
+                    ctx.begin("large", slot, &format!("{} {} {}", case.desc.replace(' ', "_"), op.name(), float_name(f32_run)));
+                    ctx.evaluations += 1;
+                    if let Err((sym, detail)) = c03_check(&case, op, f32_run) {
+                        // do not store 10^6-edge operands in the replay: the construction is deterministic
+                        ctx.violation(&sym, &format!("{} ({}) on {}: {}", op.name(), float_name(f32_run), case.desc, detail), json!({"kind": "generated", "property": "C03", "label": "large", "index": slot, "seed": ctx.seed, "tier": ctx.tier.name(), "variant": ctx.variant}));
                     }
+                    let ev = geo_booleanop::verif::steps(geo_booleanop::verif::Loop::Sweep);
+                    ctx.max("max_sweep_events_in_one_call", ev);
+                    ctx.end();
                 }
             }
         }
@@ -753,7 +764,68 @@ pub fn c10_check(case: &Case, counts: &mut std::collections::BTreeMap<String, u6
     Ok(())
 }
 
+fn next_bits64(x: f64, up: bool) -> f64 {
+    if x.is_nan() || (x == f64::INFINITY && up) || (x == f64::NEG_INFINITY && !up) {
+        return x;
+    }
+    if x == 0.0 {
+        return if up { f64::from_bits(1) } else { -f64::from_bits(1) };
+    }
+    let b = x.to_bits();
+    f64::from_bits(if (x > 0.0) == up { b + 1 } else { b - 1 })
+}
+fn next_bits32(x: f32, up: bool) -> f32 {
+    if x.is_nan() || (x == f32::INFINITY && up) || (x == f32::NEG_INFINITY && !up) {
+        return x;
+    }
+    if x == 0.0 {
+        return if up { f32::from_bits(1) } else { -f32::from_bits(1) };
+    }
+    let b = x.to_bits();
+    f32::from_bits(if (x > 0.0) == up { b + 1 } else { b - 1 })
+}
+fn lib_next<F: geo_booleanop::boolean::Float>(x: F, up: bool) -> F {
+    x.nextafter(up)
+}
+
+/// the next-representable-value helper of both instantiations against an independent bit-level implementation
+pub fn c10_nextafter(rng: &mut Rng, n: usize) -> Result<u64, Fail> {
+    let mut checked = 0;
+    let specials64 = [0.0f64, -0.0, 1.0, -1.0, f64::MIN_POSITIVE, -f64::MIN_POSITIVE, f64::from_bits(1), -f64::from_bits(1), f64::MAX, -f64::MAX, 2.0, 0.5, -2.0, 1.0 - f64::EPSILON / 2.0, 4503599627370496.0];
+    let specials32 = [0.0f32, -0.0, 1.0, -1.0, f32::MIN_POSITIVE, -f32::MIN_POSITIVE, f32::from_bits(1), -f32::from_bits(1), f32::MAX, -f32::MAX, 2.0, 0.5, -2.0, 16777216.0];
+    for i in 0..n {
+        let x64 = if i < specials64.len() { specials64[i] } else { f64::from_bits(rng.next()) };
+        let x32 = if i < specials32.len() { specials32[i] } else { f32::from_bits(rng.next() as u32) };
+        for up in [true, false] {
+            if !x64.is_nan() && x64.is_finite() {
+                let (got, want) = (lib_next(x64, up), next_bits64(x64, up));
+                checked += 1;
+                if got.to_bits() != want.to_bits() && !(got == 0.0 && want == 0.0) {
+                    return Err(("f64:nextafter".into(), format!("nextafter({:e}, up={}) = {:e} (bits {:x}), expected {:e} (bits {:x})", x64, up, got, got.to_bits(), want, want.to_bits())));
+                }
+            }
+            if !x32.is_nan() && x32.is_finite() {
+                let (got, want) = (lib_next(x32, up), next_bits32(x32, up));
+                checked += 1;
+                if got.to_bits() != want.to_bits() && !(got == 0.0 && want == 0.0) {
+                    return Err(("f32:nextafter".into(), format!("nextafter({:e}f32, up={}) = {:e} (bits {:x}), expected {:e} (bits {:x})", x32, up, got, got.to_bits(), want, want.to_bits())));
+                }
+            }
+        }
+    }
+    Ok(checked)
+}
+
 pub fn c10_worker(ctx: &mut Ctx) {
+    {
+        let mut rng = ctx.rng("nextafter", ctx.shard);
+        ctx.begin("nextafter", ctx.shard, "");
+        match c10_nextafter(&mut rng, 200_000) {
+            Ok(n) => ctx.cnt("nextafter_values_compared_with_bit_level_reference", n),
+            Err((sym, detail)) => ctx.violation(&sym, &detail, json!({"kind": "nextafter", "property": "C10", "seed": ctx.seed, "shard": ctx.shard})),
+        }
+        ctx.end();
+    }
     let total = ctx.count(60_000, 3_000_000);
     let mut counts = std::collections::BTreeMap::new();
     for i in ctx.my_indices(total) {
@@ -933,7 +1005,7 @@ fn hash_bits(v: &[u64]) -> u64 {
     h.low()
 }
 
-pub fn c12_check(case: &Case, rng: &mut Rng, threads: usize, reps: usize, counts: &mut std::collections::BTreeMap<String, u64>) -> Result<(), Fail> {
+pub fn c12_check(case: &Case, rng: &mut Rng, threads: usize, reps: usize, calls_per_thread: usize, counts: &mut std::collections::BTreeMap<String, u64>) -> Result<(), Fail> {
     let ga: MultiPolygon<f64> = to_geo(&case.a);
     let gb: MultiPolygon<f64> = to_geo(&case.b);
     let (a_bits, b_bits) = (bits_of(&ga), bits_of(&gb));
@@ -980,7 +1052,7 @@ pub fn c12_check(case: &Case, rng: &mut Rng, threads: usize, reps: usize, counts
         for t in 0..threads {
             let (ga, gb, history) = (ga.clone(), gb.clone(), history.clone());
             handles.push(std::thread::spawn(move || -> Result<(), String> {
-                for call in 0..4 {
+                for call in 0..calls_per_thread {
                     let op = OPS[(t + call) % 4];
                     let r = std::panic::catch_unwind(std::panic::AssertUnwindSafe(|| ga.boolean(&*gb, lib_op(op)))).map_err(|_| format!("panic in thread {}", t))?;
                     let out = hash_bits(&bits_of(&r));
@@ -1011,7 +1083,7 @@ pub fn c12_check(case: &Case, rng: &mut Rng, threads: usize, reps: usize, counts
 pub fn c12_worker(ctx: &mut Ctx) {
     let slow = ctx.is_slow_variant();
     let miri = ctx.variant == "miri";
-    let total = if miri { ctx.count(4, 32) } else if slow { ctx.count(600, 30_000) } else { ctx.count(6_000, 300_000) };
+    let total = if miri { ctx.count(8, 64) } else if slow { ctx.count(600, 30_000) } else { ctx.count(6_000, 300_000) };
     let mut counts = std::collections::BTreeMap::new();
     for i in ctx.my_indices(total) {
         if ctx.out_of_time() {
@@ -1019,12 +1091,17 @@ pub fn c12_worker(ctx: &mut Ctx) {
         }
         let mut rng = ctx.rng("mixed", i);
         let mut rej = 0;
-        let case = gen_mixed(&mut rng, if miri { 0 } else { ctx.size() }, &mut rej);
+        let case = if miri {
+            // whole operations cost seconds under the interpreter: tiny inputs only
+            if i % 2 == 0 { gen_rect(&mut rng, 2) } else { gen_lattice(&mut rng, 1) }
+        } else {
+            gen_mixed(&mut rng, ctx.size(), &mut rej)
+        };
         ctx.cnt(&format!("family:{}", case.family), 1);
         ctx.begin("mixed", i, "");
         ctx.evaluations += 1;
         let threads = if miri { 2 } else if i % 4 == 0 { 16 } else { 3 };
-        if let Err((sym, detail)) = c12_check(&case, &mut rng, threads, if miri { 1 } else { 3 }, &mut counts) {
+        if let Err((sym, detail)) = c12_check(&case, &mut rng, threads, if miri { 0 } else { 3 }, if miri { 2 } else { 4 }, &mut counts) {
             ctx.violation(&sym, &detail, boolean_replay("C12", &case, None, false, Pairing::MM, json!({"threads": threads})));
         }
         ctx.note_nontrivial(case_hash(&case, ""));
